@@ -79,6 +79,12 @@ func (e *endpoint) handleICMP(r *stack.Route, vv buffer.VectorisedView) {
 		if vv.Size() < header.ICMPv4MinimumSize+4 {
 			return
 		}
+		// A request that was damaged on the way must not be answered: the reply
+		// would carry a fresh, valid checksum over the damaged bytes.
+		// 校验和不正确的echo请求直接丢弃
+		if header.Checksum(vv.ToView(), 0) != 0xffff {
+			return
+		}
 		log.Printf("@网络层 icmp: 接受报文:echo")
 		vv.TrimFront(header.ICMPv4MinimumSize)
 		req := echoRequest{r: r.Clone(), v: vv.ToView()}
